@@ -48,6 +48,9 @@ type Exec struct {
 	wfSeen            map[string]bool
 	extraNames        map[string]Term
 	typeParamObjs     map[string]*types.TypeParam
+	mapSorts          map[string]string
+	curProp           string
+	inGoroutine       bool
 }
 
 type localSig struct {
@@ -567,6 +570,7 @@ func (x *Exec) modifiedBy(st *State, run func(s *State, done func(*State))) (var
 			}
 		}
 		for m, v := range e.maps {
+			x.mapSorts[m] = v.Sort
 			if b, ok := base.maps[m]; !ok || b.S != v.S {
 				if ok || !strings.HasSuffix(v.S, "@0") {
 					mset[m] = true
@@ -600,7 +604,11 @@ func (x *Exec) havocLoopTargets(st *State, vars []types.Object, maps, ghosts []s
 		x.assumeTypeInv(st, nv)
 	}
 	for _, m := range maps {
-		old := st.maps[m]
+		old, ok := st.maps[m]
+		if !ok {
+			// first touched inside the loop: its initial value is the unconstrained map
+			old = x.d.constant(sanitize(m)+"@0", x.mapSorts[m])
+		}
 		st.maps[m] = x.d.fresh(m+"_"+tag, old.Sort)
 		if m == "Alloc" {
 			// allocation only grows
@@ -692,8 +700,28 @@ func (x *Exec) genericLoop(st *State, fr *Frame, node ast.Node, body []ast.Stmt,
 			}
 		}
 	}
+	// progress condition (DESIGN 4.3): every iteration of an unbounded loop of a goroutine
+	// body passes a point where cancellation is observed
+	unbounded := false
+	if fs, ok := node.(*ast.ForStmt); ok && x.inGoroutine {
+		if fs.Cond == nil {
+			unbounded = true
+		} else if tv, ok := x.info.Types[fs.Cond]; ok && tv.Value != nil {
+			unbounded = true
+		}
+	}
+	if unbounded {
+		it.ghosts["obsCancel"] = tFalse
+	}
 	d0 := decr(it)
 	preserve := func(e *State) {
+		if unbounded {
+			oc, ok := e.ghosts["obsCancel"]
+			if !ok {
+				oc = tFalse
+			}
+			x.oblige(e, "progress", fmt.Sprintf("loop%d:observes-cancel", ord), oc, node, "every iteration of an unbounded loop observes cancellation (select with a ctx.Done arm)")
+		}
 		checkInv(e, "inv-preserve")
 		d1 := decr(e)
 		for i := range d0 {
